@@ -47,7 +47,8 @@ BinaryFamily(z) ==
 \* numpy.where(cond, a, b): shapes of cond (s3), a (s), b (s2); argnum 1 or 2
 WhereFamily(z) ==
   {Cfg("where", "func", t[1], t[2], t[3], n, NoAx, FALSE, 0, 0, <<>>, "-", "rr", "array", Broadcast(Broadcast(t[1], t[2]), t[3])) :
-     n \in {1, 2}, t \in {tt \in Shapes(2) \X Shapes(2) \X Shapes(2) :
+     \* n = 0: the *condition* is the differentiated (float) argument - its rule is declared None, the derivative is an exact zero of ITS shape
+     n \in {0, 1, 2}, t \in {tt \in Shapes(2) \X Shapes(2) \X Shapes(2) :
                              BroadcastOK(tt[1], tt[2]) /\ BroadcastOK(Broadcast(tt[1], tt[2]), tt[3])}}
 
 \* ---------------------------------------------------------------- reductions
@@ -188,7 +189,10 @@ ContractFamily(z) ==
                   <<"ij,j", <<2, 3>>, <<3>> >>, <<"i,j->ij", <<3>>, <<2>> >>, <<"ijk,k->ij", <<2, 3, 2>>, <<2>> >>, <<"ij,kj->ik", <<1, 3>>, <<2, 3>> >>,
                   <<"...ij,...jk->...ik", <<2, 2, 3>>, <<3, 2>> >>, <<"...ij,...jk->...ik", <<2, 3>>, <<2, 3, 2>> >>, <<"i...,i->...", <<3, 2>>, <<3>> >>,
                   <<"...,...->...", <<2, 3>>, <<3>> >>, <<"i...j,j->i...", <<2, 3, 2>>, <<2>> >>, <<"ij,ji->", <<2, 3>>, <<3, 2>> >>,
-                  <<"i...j,...j->i...", <<2, 3, 2>>, <<2>> >>, <<"ij...,j->i...", <<2, 3, 2>>, <<3>> >>, <<"ij...,j...->i...", <<2, 3>>, <<3, 2>> >>}}
+                  <<"i...j,...j->i...", <<2, 3, 2>>, <<2>> >>, <<"ij...,j->i...", <<2, 3, 2>>, <<3>> >>, <<"ij...,j...->i...", <<2, 3>>, <<3, 2>> >>,
+                  \* an operand broadcast against TWO ellipsis dimensions of the other one (trailing, leading and centre ellipsis)
+                  <<"i...,i...->...", <<3>>, <<3, 3, 2>> >>, <<"i...,i...->...", <<2, 3, 2>>, <<2>> >>, <<"...i,...i->...", <<3>>, <<2, 3, 3>> >>,
+                  <<"i...,i...->i...", <<2>>, <<2, 2, 3>> >>, <<"i...j,ij->...", <<2, 3, 2, 2>>, <<2, 2>> >>, <<"i...,...->i...", <<2>>, <<3, 2>> >>}}
   \cup {K1("einsum", "func", e[2], <<>>, 0, 0, <<>>, e[1], "rr") :
            e \in {<<"ii->i", <<3, 3>> >>, <<"ii", <<3, 3>> >>, <<"ij->j", <<2, 3>> >>, <<"ij->", <<2, 3>> >>, <<"ij->ji", <<2, 3>> >>, <<"i...->...", <<3, 2>> >>, <<"...i->i...", <<2, 3>> >>}}
 
@@ -243,11 +247,16 @@ LinalgFamily(z) ==
 \* ---------------------------------------------------------------- fft
 \* ia = n (0 = None) for the 1-D transforms; tp = s argument (<<>> = None) and st2 in s3 field = axes for the n-D transforms; st = norm
 F1(prim, sh, ax, n, sarg, axes, norm, k) == Cfg(prim, "func", sh, <<>>, axes, 0, ax, FALSE, n, 0, sarg, norm, k, "array", NA)
+\* form "kw": the 1-D transforms called as fft(x, n=.., axis=.., norm=..) - autograd's own argument parser names the length parameter differently
+F1kw(prim, sh, ax, n, norm, k) == Cfg(prim, "kw", sh, <<>>, <<>>, 0, ax, FALSE, n, 0, <<>>, norm, k, "array", NA)
 FNorms == {"none", "ortho", "forward", "backward"}
 FShapes == {<<4>>, <<3>>, <<2, 4>>, <<4, 2>>, <<6, 1>>} \cup (IF MaxRank >= 3 THEN {<<4, 2, 4>>} ELSE {})
 FftFamily(z) ==
   UNION {
     {F1(p, sh, AxInt(a), n, <<>>, <<>>, nm, k) : p \in {"fft", "ifft"}, a \in AxisInts(Len(sh)), n \in {0, 2, 4, 6}, nm \in FNorms, k \in Kinds \cap {"rr", "cc"}}
+    \cup {F1kw(p, sh, AxInt(a), n, nm, k) : p \in {"fft", "ifft"}, a \in AxisInts(Len(sh)), n \in {2, 4, 6}, nm \in {"none", "ortho"}, k \in Kinds \cap {"rr", "cc"}}
+    \cup {F1kw("rfft", sh, AxInt(a), n, nm, "rr") : a \in AxisInts(Len(sh)), n \in {2, 4, 6}, nm \in {"none", "ortho"}}
+    \cup {F1kw("irfft", sh, AxInt(a), n, nm, "cc") : a \in AxisInts(Len(sh)), n \in {2, 4, 6}, nm \in {"none", "ortho"}}
     \cup {F1("rfft", sh, AxInt(a), n, <<>>, <<>>, nm, "rr") : a \in AxisInts(Len(sh)), n \in {0, 2, 4, 6}, nm \in FNorms}
     \cup {F1("irfft", sh, AxInt(a), n, <<>>, <<>>, nm, "cc") : a \in AxisInts(Len(sh)), n \in {0, 2, 4, 6}, nm \in FNorms}
     \cup (IF Len(sh) >= 2 THEN
@@ -301,7 +310,18 @@ HelperFamily(z) ==
   \cup {Cfg("make_diagonal", "func", a, <<>>, <<>>, 0, NoAx, FALSE, o, 0, t, "-", "rr", "array", NA) :
       a \in {<<3>>, <<2, 3>>, <<2>>}, o \in {-1, 0, 1}, t \in {<<0, 1>>, <<1, 0>>, <<-1, -2>>, <<0, 2>>, <<-2, -1>>}}
 
+\* ---------------------------------------------------------------- the extension API on array arguments of different shapes (C17, C14, C05)
+\* A harness-registered primitive  user(a, b, shift=0) = A*B + shift  (broadcasting; ib = 1: summed to a scalar) where A = floor(a) when
+\* argument 0 is declared non-differentiable (ia = 1), B = floor(b) when argument 1 is (ia = 2): the declaration `None` is then TRUE, and
+\* what is under test is what the library makes of it - an exact zero in the space of THAT argument (reverse) / of the output (forward).
+\* form = registration API: "defvjp" (positional), "argnums" (defvjp(.., argnums=(1, 0)) and defjvp likewise)
+ExtendFamily(z) ==
+  {Cfg("userprod", api, t[1], t[2], <<>>, n, NoAx, FALSE, tbl, red, <<>>, "-", "rr", "array", NA) :
+      api \in {"defvjp", "argnums"}, n \in {0, 1}, tbl \in 0..2, red \in {0, 1},
+      t \in {tt \in (Shapes(2) \cup {<<2, 1, 3>>}) \X (Shapes(2) \cup {<<2, 1, 3>>}) : BroadcastOK(tt[1], tt[2])}}
+
 Space == CASE Family = "binary" -> BinaryFamily(0)
+           [] Family = "extend" -> ExtendFamily(0)
            [] Family = "where" -> WhereFamily(0)
            [] Family = "reduce" -> ReduceFamily(0)
            [] Family = "cum" -> CumFamily(0)
